@@ -393,11 +393,12 @@ Proof. exact move_same_shape. Qed.
 Print Assumptions move_keeps_shape.
 
 (* non-vacuity at size (): a Pile rendered fixed of a Columns with a 'pack' column around a fixed leaf and a
-   given column with a cursor leaf, and a Padding width 'pack' around a fixed leaf *)
+   given column with a cursor leaf, and a Padding width 'pack' around a fixed leaf (both items 8 columns wide: Pile.render(())
+   does not pad a narrower fixed item, such a Pile never fits) *)
 Definition fl (id w h : Z) : widget := Leaf (LeafD id false h 0 true false None [] 1 w).
 Definition example_fixed : widget :=
   Pile [(PPack, Columns [(CPack, false, fl 0 3 2); (CGiven 4, false, lf 1 1 (Some (2, 0)))] 1 1 1);
-        (PPack, Padding (fl 2 2 1) GCenter 0 GPack 0 None 1 0)] 0.
+        (PPack, Padding (fl 2 7 1) GCenter 0 GPack 0 None 1 0)] 0.
 
 Example example_fixed_fits :
   sized_tree example_fixed = false /\ v_fits (fst (xview example_fixed)) fixed_size = true /\
@@ -411,7 +412,7 @@ Proof. vm_compute. auto. Qed.
 
 Example example_fixed_rects :
   map (fun r => (rc_id r, rc_x r, rc_y r, rc_cols r, rc_rows r)) (v_rects (fst (xview example_fixed)) fixed_size true)
-  = [(0, 0, 0, 3, 2); (1, 4, 0, 4, 1); (2, 1, 2, 2, 1)].
+  = [(0, 0, 0, 3, 2); (1, 4, 0, 4, 1); (2, 1, 2, 7, 1)].
 Proof. vm_compute. reflexivity. Qed.
 
 Example example_fixed_mouse_and_move :
